@@ -501,3 +501,78 @@ def shrink_candidates(case):
     d = case.get("durations")
     if d and any(x != 1.0 for x in d):
         yield dict(case, durations=[1.0] * len(d))
+
+
+# ------------------------------------------------------------------------------------------------
+# conformance: the same histories on the REAL stdlib pools (never decides, never alarms)
+# ------------------------------------------------------------------------------------------------
+
+
+def conformance(root_seed, tier):
+    """Execute a few histories on the real ThreadPoolExecutor (and, in the thorough tier, the real spawn
+    process pools) and compare the results with what the simulated pools returned.  In correct code the
+    results do not depend on the schedule at all, so plain equality is a schedule-independent oracle: it can
+    miss a bug, it cannot raise a false alarm; disagreements are reported in the evidence only."""
+    import concurrent.futures as cf
+    import multiprocessing
+
+    import pennylane.concurrency.executors.native.conc_futures as m_cf
+    import pennylane.concurrency.executors.native.multiproc as m_mp
+
+    from simkit.core import Streams, derive_seed
+
+    simrng = _ENV["simrng"]
+    sim_names = (m_cf.ThreadPoolExecutor, m_cf.ProcessPoolExecutor, m_cf.get_context, m_mp.get_context)
+    want = {"quick": {"cf_threadpool": 4}, "thorough": {"cf_threadpool": 16, "cf_procpool": 2, "mp_pool": 2}}[tier]
+    done = {k: 0 for k in want}
+    validated, disagreements, idx = 0, [], 0
+    try:
+        while any(done[k] < want[k] for k in want) and idx < 3000:
+            case = gen_case(Streams(derive_seed(root_seed, "C31-conformance", idx)), tier)
+            idx += 1
+            b = case["backend"]
+            if b not in want or done[b] >= want[b] or case["entry"] != "device":
+                continue
+            if any(t["kind"] == "invalid" for c in case["calls"] for t in c["tapes"]):
+                continue
+            case = dict(case, max_workers=min(case["max_workers"], 3), calls=case["calls"][:2])
+            sim_out, _ = _run_history(case, case["sched_seeds"][0])
+            m_cf.ThreadPoolExecutor, m_cf.ProcessPoolExecutor = cf.ThreadPoolExecutor, cf.ProcessPoolExecutor
+            m_cf.get_context = m_mp.get_context = multiprocessing.get_context
+            simrng.install(None)
+            try:
+                real_out = _real_history(case)
+            finally:
+                (m_cf.ThreadPoolExecutor, m_cf.ProcessPoolExecutor, m_cf.get_context, m_mp.get_context) = sim_names
+            done[b] += 1
+            if _close(real_out, [list(x) for x in sim_out], 1e-10):
+                validated += 1
+            else:
+                disagreements.append({"backend": b, "calls": [c["method"] for c in case["calls"]]})
+    finally:
+        (m_cf.ThreadPoolExecutor, m_cf.ProcessPoolExecutor, m_cf.get_context, m_mp.get_context) = sim_names
+    return {"validated": validated, "histories_by_backend": done, "disagreements": disagreements[:5],
+            "note": "results of the same seeded history on the real stdlib pools vs the simulated pools (bit-identical shot results expected)"}
+
+
+def _real_history(case):
+    qp, qgen, backends = _ENV["qp"], _ENV["qgen"], _ENV["backends"]
+    dev = qp.device("default.qubit", seed=case["dev_seed"], max_workers=case["max_workers"])
+    cls = backends.get_supported_backends()[case["backend"]]
+    out = []
+    for call in case["calls"]:
+        tapes = [qgen.build_tape(t) for t in call["tapes"]]
+        cfg = qp.devices.ExecutionConfig(executor_backend=cls)
+        try:
+            m = call["method"]
+            if m in ("execute", "compute_derivatives", "execute_and_compute_derivatives"):
+                res = getattr(dev, m)(tapes, cfg)
+            elif m in ("compute_vjp", "execute_and_compute_vjp"):
+                cots = [tuple(t["cot"]) if len(t["cot"]) > 1 else t["cot"][0] for t in call["tapes"]]
+                res = getattr(dev, m)(tapes, cots, cfg)
+            else:
+                res = getattr(dev, m)(tapes, [tuple(t["tan"]) for t in call["tapes"]], cfg)
+            out.append(["value", qgen.to_jsonable(res)])
+        except Exception as e:  # noqa: BLE001
+            out.append(["raise", type(e).__name__, str(e)[:160]])
+    return out
